@@ -13,7 +13,9 @@ EXPLANATION = (
     "path through the UpTo arm of the goal match the range first_patch..last_patch is provably non-empty where the series is sliced, i.e. "
     "a goal naming an already applied patch cannot get that far; (R2) every "
     "refusal (explicit Err return built in cmd_push) is unreachable from any call that can write the file system, and the two reads of "
-    "series / applied-patches have no write effect; (R3) a patch file that cannot be loaded or parsed cannot leave earlier patches "
+    "series / applied-patches have no write effect; (R2b) every call of cmd_push that can write the file system, other than "
+    "launching a driver, is unreachable without passing the Ok edge of a driver call, so a refusal coming out of a driver finds "
+    ".pc untouched as well; (R3) a patch file that cannot be loaded or parsed cannot leave earlier patches "
     "half-saved: in the sequential driver nothing that writes is followed by another loop iteration, in the parallel driver both worker "
     "phases are dominated by the exhaustion of the loop that propagates the parse errors; (R4) exit status as in C05-R5. Not decided: "
     "wording of the messages; behaviour with an absurdly large but valid series."
@@ -138,5 +140,8 @@ def run(ck):
             ok = any(il["none_edge"] and site.bb in cfg.dominated_by_edge(par, il["none_edge"]) for il in ploops)
             ck.require(ok, "C17-R3", "worker phase %s starts after all parse results were checked" % cl.id.split("::")[-1],
                        "a worker phase can start before every patch was parsed successfully", site.where())
+    # ---- R2b: cmd_push itself writes nothing before a driver returned Ok (a driver's refusal - missing / unparseable patch -
+    #      must find the tree untouched, .pc included) --------------------------------------------------------------------------------
+    c05.r1(ck_alias(ck, "C17-R2b"), cmd_push, seq, par)
     # ---- R4 ------------------------------------------------------------------------------------------
     c05.r5(ck_alias(ck, "C17-R4"), main, cmd_push, seq, par)
